@@ -21,11 +21,13 @@ Conditions (all decidable `Bool`s), each with a witness that it cannot be droppe
   (`w_dangling_variant`); `@oneOf` input fields are nullable (`w_oneof_nonnull`: SDL-expressible, panics with
   "double required annotation").
 * `VarsGenOk s q` / `DocVarsOk s d`: no variable of type `T!!` (`w_var_double_required`; not expressible in
-  GraphQL syntax, expressible in the AST); the default-value literal passes `literalOk` — it has no `null` and
+  GraphQL syntax, expressible in the AST); the default-value literal passes `literalOk` — it has no `null` at a
+  NON-NULL position (`null` at a nullable position is rendered as `None` since the repair of the generator) and
   no variable at any position the code looks at (`w_default_null`, `w_default_var`, `w_default_null_nested`),
   and is nested less than 64 levels (a bound of the model, not of the code).  `docVarsOk_of_plain`: the purely
-  syntactic `DocVarsPlain d` (no `T!!`, default literals without `null` / variables anywhere, nesting ≤ 64) implies
-  `DocVarsOk s d` (`literalOk_plain`).
+  syntactic `DocVarsPlain d` (no `T!!`; default literals without `null` / variables anywhere, nesting ≤ 64 — or the
+  literal `null` itself for a variable of nullable type; `null` deeper inside a literal is not covered by the
+  syntactic condition, which does not look at types: use `DocVarsOk`) implies `DocVarsOk s d` (`literalOk_plain`).
 
 Method: `Ret P r` ("`r` is a success satisfying `P`, or the model ran out of fuel") is proved compositionally for
 `allUsedTypes` (`allUsedTypes_ret`: the used set only contains existing types and fragments) and for the four
@@ -655,12 +657,13 @@ theorem inputItems_ok {c : Ctx} (hg : WfG c.s) (u : UsedTypes) : ∃ I, inputIte
 
 
 /-- conditions on the variables of the resolved query (decidable): no `T!!`, and the default-value literal
-    passes `graphql_parser_value_to_literal` (it contains no `null` and no variable where the code looks) -/
+    passes `graphql_parser_value_to_literal` (it contains no `null` at a non-null position and no variable where the
+    code looks) -/
 def VarsGenOk (s : Schema) (q : Query) : Bool :=
   q.variables.all (fun v => qualsOk v.ty.quals &&
     match v.default with
     | none => true
-    | some d => (match literalOk s 64 d v.ty.id with | .ok _ => true | .error _ => false))
+    | some d => (match literalOk s 64 d v.ty.id v.ty.quals with | .ok _ => true | .error _ => false))
 
 theorem variablesItems_ok {c : Ctx} (hq : QueryWf c.s c.q = true) (hv : VarsGenOk c.s c.q = true) (op : Nat) :
     ∃ V, variablesItems c op = .ok V := by
@@ -690,7 +693,7 @@ theorem variablesItems_ok {c : Ctx} (hq : QueryWf c.s c.q = true) (hv : VarsGenO
         rw [hdv] at hd
         simp only [] at hd
         refine ex_bind (hvt v hvm) (fun _ _ => ex_bind ?_ (fun _ _ => ⟨_, rfl⟩))
-        cases hl : literalOk c.s 64 d v.ty.id with
+        cases hl : literalOk c.s 64 d v.ty.id v.ty.quals with
         | ok u => exact ⟨u, rfl⟩
         | error e => rw [hl] at hd; cases hd
 
@@ -1009,7 +1012,7 @@ def DocVarsOk (s : Schema) (d : QDoc) : Bool :=
   d.all fun
     | .op _ _ vars _ => vars.all (fun vd => qualsOk vd.ty.quals &&
         match vd.default, s.findType vd.ty.base with
-        | some dv, some t => (match literalOk s 64 dv t with | .ok _ => true | .error _ => false)
+        | some dv, some t => (match literalOk s 64 dv t vd.ty.quals with | .ok _ => true | .error _ => false)
         | _, _ => true)
     | _ => true
 
@@ -1096,15 +1099,15 @@ theorem forM_ok {α} (f : α → Outcome PUnit) : ∀ (l : List α), (∀ x ∈ 
 
 /-- a literal without `null` and without variables, nested less deeply than the fuel, passes
     `graphql_parser_value_to_literal` against any existing type -/
-theorem literalOk_plain {s : Schema} (hg : WfG s) : ∀ (fuel : Nat) (v : Value) (ty : TypeId), tyOk s ty = true →
-    plainVal v = true → valDepth v ≤ fuel → literalOk s fuel v ty = .ok () := by
+theorem literalOk_plain {s : Schema} (hg : WfG s) : ∀ (fuel : Nat) (v : Value) (ty : TypeId) (quals : List Qual),
+    tyOk s ty = true → plainVal v = true → valDepth v ≤ fuel → literalOk s fuel v ty quals = .ok () := by
   intro fuel
   induction fuel with
   | zero =>
-    intro v ty _ _ hd
+    intro v ty quals _ _ hd
     cases v <;> simp [valDepth] at hd
   | succ n ih =>
-    intro v ty hty hp hd
+    intro v ty quals hty hp hd
     cases v with
     | var x => simp [plainVal] at hp
     | null => simp [plainVal] at hp
@@ -1115,7 +1118,7 @@ theorem literalOk_plain {s : Schema} (hg : WfG s) : ∀ (fuel : Nat) (v : Value)
       apply forM_ok
       intro x hx
       have := plainVals_mem hp hx
-      exact ih x ty hty this.1 (by omega)
+      exact ih x ty _ hty this.1 (by omega)
     | obj kvs =>
       rw [plainVal] at hp
       rw [valDepth] at hd
@@ -1131,7 +1134,7 @@ theorem literalOk_plain {s : Schema} (hg : WfG s) : ∀ (fuel : Nat) (v : Value)
         · rename_i k v hfind
           have hm := List.mem_of_find?_eq_some hfind
           have := plainKVs_mem hp hm
-          exact ih v fty.id (hg.inputTy _ (List.getElem_mem hlt) _ hf) this.1 (by simp only [] at this; omega)
+          exact ih v fty.id _ (hg.inputTy _ (List.getElem_mem hlt) _ hf) this.1 (by simp only [] at this; omega)
         · rfl
       | _ => rfl
     | int x => simp [literalOk, pure, Except.pure]
@@ -1141,12 +1144,12 @@ theorem literalOk_plain {s : Schema} (hg : WfG s) : ∀ (fuel : Nat) (v : Value)
     | «enum» x => simp [literalOk, pure, Except.pure]
 
 /-- the syntactic form of `DocVarsOk`: variable types without `T!!`, default literals without `null` /
-    variables and nested at most 64 levels -/
+    variables and nested at most 64 levels — or the literal `null` for a variable of nullable type -/
 def DocVarsPlain (d : QDoc) : Bool :=
   d.all fun
     | .op _ _ vars _ => vars.all (fun vd => qualsOk vd.ty.quals &&
         match vd.default with
-        | some dv => plainVal dv && decide (valDepth dv ≤ 64)
+        | some dv => (plainVal dv && decide (valDepth dv ≤ 64)) || (valueIsNull dv && (stripRequired vd.ty.quals).1)
         | none => true)
     | _ => true
 
@@ -1172,8 +1175,11 @@ theorem docVarsOk_of_plain {s : Schema} (hs : SchemaWf s = true) (hsg : SchemaWf
       | none => rfl
       | some t =>
         rw [hdv] at h2
-        simp only [Bool.and_eq_true, decide_eq_true_eq] at h2
-        simp only [literalOk_plain hg 64 dv t (hw.names _ _ ht) h2.1 h2.2]
+        simp only [Bool.or_eq_true, Bool.and_eq_true, decide_eq_true_eq] at h2
+        rcases h2 with h2 | h2
+        · simp only [literalOk_plain hg 64 dv t vd.ty.quals (hw.names _ _ ht) h2.1 h2.2]
+        · cases dv <;> simp only [valueIsNull, Bool.false_eq_true, false_and] at h2
+          simp only [literalOk, h2.2, ↓reduceIte, pure, Except.pure]
   | _ => rfl
 
 /-! ## non-vacuity and necessity -/
@@ -1219,24 +1225,43 @@ def genPanics (d : QDoc) (msg : String) : Bool :=
       (match generate s ⟨id, id⟩ {} "" d with | .error e => e == .panic msg | .ok _ => false)
   | .error _ => false
 
-/-- `query Q($x: Int = null) { a }` -/
+/-- `generate` succeeds on the schema `wSdl` -/
+def genOk (d : QDoc) : Bool :=
+  match Sdl.fromSdl wSdl with
+  | .ok s => isOk (generate s ⟨id, id⟩ {} "" d)
+  | .error _ => false
+
+/-- `query Q($x: Int! = null) { a }`: `null` at a NON-NULL position still panics — while `query Q($x: Int = null) { a }`
+    (a valid default: the type is nullable) is generated since the repair of the generator (`None`), and passes the
+    syntactic condition -/
 theorem w_default_null :
-    genPanics [.op .query (some "Q") [{ name := "x", ty := .named "Int", default := some .null }] [.field none "a" []]]
-      "null as default value" = true := by decide +kernel
+    genPanics [.op .query (some "Q") [{ name := "x", ty := .nonNull (.named "Int"), default := some .null }]
+      [.field none "a" []]] "null as default value" = true ∧
+    genOk [.op .query (some "Q") [{ name := "x", ty := .named "Int", default := some .null }] [.field none "a" []]] = true ∧
+    DocVarsPlain [.op .query (some "Q") [{ name := "x", ty := .named "Int", default := some .null }]
+      [.field none "a" []]] = true := by
+  refine ⟨?_, ?_, ?_⟩ <;> decide +kernel
 
 /-- `query Q($x: Int = $y) { a }` -/
 theorem w_default_var :
     genPanics [.op .query (some "Q") [{ name := "x", ty := .named "Int", default := some (.var "y") }] [.field none "a" []]]
       "variable in variable" = true := by decide +kernel
 
-/-- `query Q($x: J = {a: null}) { a }` (a `null` under an unknown key, `{zzz: null}`, is not looked at) -/
+/-- `query Q($x: J = {a: null}) { a }` (`a: Int!`: a `null` at a non-null member still panics; at the nullable member
+    `j` — `{a: 1, j: null}` — and inside a list of nullable elements — `$y: [Int] = [1, null]` — it is generated;
+    a `null` under an unknown key, `{zzz: null}`, is not looked at) -/
 theorem w_default_null_nested :
     genPanics [.op .query (some "Q") [{ name := "x", ty := .named "J", default := some (.obj [("a", .null)]) }]
       [.field none "a" []]] "null as default value" = true ∧
-    (match Sdl.fromSdl wSdl with
-     | .ok s => isOk (generate s ⟨id, id⟩ {} "" [.op .query (some "Q")
-        [{ name := "x", ty := .named "J", default := some (.obj [("zzz", .null)]) }] [.field none "a" []]])
-     | .error _ => false) = true := by decide +kernel
+    genOk [.op .query (some "Q")
+      [{ name := "x", ty := .named "J", default := some (.obj [("a", .int 1), ("j", .null)]) },
+       { name := "y", ty := .list (.named "Int"), default := some (.list [.int 1, .null]) }] [.field none "a" []]] = true ∧
+    genPanics [.op .query (some "Q")
+      [{ name := "y", ty := .list (.nonNull (.named "Int")), default := some (.list [.int 1, .null]) }]
+      [.field none "a" []]] "null as default value" = true ∧
+    genOk [.op .query (some "Q")
+        [{ name := "x", ty := .named "J", default := some (.obj [("zzz", .null)]) }] [.field none "a" []]] = true := by
+  refine ⟨?_, ?_, ?_, ?_⟩ <;> decide +kernel
 
 /-- a variable of type `Int!!` (AST only) -/
 theorem w_var_double_required :
